@@ -502,18 +502,18 @@ def _getters(ctx) -> None:
 
 def run(ctx) -> None:
     ctx.explanation = EXPLANATION
-    _tables(ctx)
-    _rust_consts(ctx)
+    ctx.step(_tables, ctx)
+    ctx.step(_rust_consts, ctx)
     mir = None
     try:
         mir = mirfront.load()
     except mirfront.MirUnavailable as e:
         ctx.unverified("RUST", "helpers.rs", f"MIR unavailable, Rust clauses not checked: {e}", "rust/")
-    _siblings(ctx, mir)
-    _local_time(ctx, mir)
-    _getters(ctx)
+    ctx.step(_siblings, ctx, mir)
+    ctx.step(_local_time, ctx, mir)
+    ctx.step(_getters, ctx)
     from . import C07
-    C07._py_backward(ctx)
+    ctx.step(C07._py_backward, ctx)
     if mir is not None:
         C07._rs_backward(ctx, mir)
     ctx.expect_min("TABLES", 25)
